@@ -96,6 +96,89 @@ pub fn gen_workloads(ctx: &Ctx, rng: &mut Rng) -> Vec<Workload> {
         }
         v.push(Workload { history: h, label });
     }
+    // ---- directed workloads (seed independent), spread over the shards
+    let directed = directed_workloads(ctx.thorough());
+    for (i, w) in directed.into_iter().enumerate() {
+        if (i as u64 + 2) % ctx.nshards == ctx.shard {
+            v.insert(0, w);
+        }
+    }
+    v
+}
+
+/// Workloads aimed at what random reuse histories rarely do: (a) the very first commits of a
+/// minimum-size file (every one of them extends the file), (b) free lists longer than one page that
+/// are rewritten by small commits, (c) repeated file extension at a large page size (an 8 MiB
+/// allocation step is only 128 pages of 64 KiB), all without any reader open.
+pub fn directed_workloads(thorough: bool) -> Vec<Workload> {
+    let mut v = Vec::new();
+    let put = |h: H, k: String, tag: u64, len: usize| Op::Put { h, k: K::lit(k.as_bytes()), v: V { tag, len }, how: How::Slice, vhow: How::Slice };
+    let tx = |ops: Vec<Op>| TxScript { ops, end: End::Commit, reopen: false };
+    // (a) minimum-size files: 4 pages, small and medium first transactions
+    for (ps, n, len) in [(1024u64, 3usize, 40usize), (1024, 12, 300), (4096, 30, 900), (1024, 2, 2500)] {
+        let mut txs = Vec::new();
+        let mut ops = vec![Op::TxCreate { k: K::lit(b"first"), how: How::Slice }];
+        for j in 0..n {
+            ops.push(put(0, format!("k{:03}", j), 10 + j as u64, len));
+        }
+        txs.push(tx(ops));
+        let mut ops = vec![Op::TxGet { k: K::lit(b"first"), how: How::Slice }];
+        for j in 0..n {
+            ops.push(put(0, format!("k{:03}", j), 100 + j as u64, len + 1));
+        }
+        txs.push(tx(ops));
+        txs.push(tx(vec![Op::TxGet { k: K::lit(b"first"), how: How::Slice }, Op::Delete { h: 0, k: K::lit(b"k000") }, put(0, "z".into(), 999, len)]));
+        v.push(Workload { history: History { pagesize: ps, num_pages: 4, strict: false, populate: false, txs, origin: "directed".into() }, label: format!("minimum-size file, page size {}, first commits of {} x {} B", ps, n, len) });
+    }
+    // (b) free lists of several pages, rewritten by small commits and by commits that shrink them
+    for index in if thorough { vec![0usize, 1, 3] } else { vec![0usize] } {
+        if let Some(mut h) = crate::shape::big_freelist_history(1024, index) {
+            for t in h.txs.iter_mut() {
+                t.reopen = false;
+            }
+            // two more small commits while the list is long
+            let extra = tx(vec![Op::TxGet { k: K::lit(b"keep"), how: How::Slice }, put(0, "extra".into(), 777, 33)]);
+            h.txs.insert(2, extra.clone());
+            h.txs.insert(2, tx(vec![Op::TxGet { k: K::lit(b"keep"), how: How::Slice }, put(0, "extra2".into(), 778, 500), Op::Delete { h: 0, k: K { pre: b"big00001".to_vec(), fill: 6, post: vec![] } }]));
+            h.num_pages = 64;
+            v.push(Workload { history: h, label: format!("multi-page free list rewritten by small commits (variant {})", index) });
+        }
+    }
+    // (c) repeated growth: 64 KiB pages, each commit adds about 2.6 MiB, some delete and re-add
+    {
+        let ps = 65536u64;
+        let mut txs = Vec::new();
+        txs.push(tx(vec![Op::TxCreate { k: K::lit(b"g"), how: How::Slice }, put(0, "seed".into(), 1, 100)]));
+        let rounds = if thorough { 9 } else { 5 };
+        for r in 0..rounds {
+            let mut ops = vec![Op::TxGet { k: K::lit(b"g"), how: How::Slice }];
+            for j in 0..13 {
+                ops.push(put(0, format!("r{}-{:02}", r, j), 1000 * (r as u64 + 1) + j as u64, 200_000 + 1000 * j));
+            }
+            if r % 2 == 1 {
+                for j in 0..6 {
+                    ops.push(Op::Delete { h: 0, k: K::lit(format!("r{}-{:02}", r - 1, j).as_bytes()) });
+                }
+            }
+            txs.push(tx(ops));
+            txs.push(tx(vec![Op::TxGet { k: K::lit(b"g"), how: How::Slice }, put(0, "seed".into(), 50 + r as u64, 100 + r)]));
+        }
+        v.push(Workload { history: History { pagesize: ps, num_pages: 4, strict: false, populate: false, txs, origin: "directed".into() }, label: "repeated file extension at page size 65536 (2.6 MiB per commit)".into() });
+    }
+    // (d) same at 16 KiB pages with many small values (many pages per commit, growth every few commits)
+    {
+        let ps = 16384u64;
+        let mut txs = Vec::new();
+        txs.push(tx(vec![Op::TxCreate { k: K::lit(b"g"), how: How::Slice }]));
+        for r in 0..(if thorough { 8 } else { 4 }) {
+            let mut ops = vec![Op::TxGet { k: K::lit(b"g"), how: How::Slice }];
+            for j in 0..60 {
+                ops.push(put(0, format!("r{}-{:03}", r, j), 1000 * (r as u64 + 1) + j as u64, 50_000));
+            }
+            txs.push(tx(ops));
+        }
+        v.push(Workload { history: History { pagesize: ps, num_pages: 4, strict: false, populate: false, txs, origin: "directed".into() }, label: "repeated file extension at page size 16384 (3 MiB per commit in 60 values)".into() });
+    }
     v
 }
 
